@@ -24,7 +24,7 @@ func FreshnessReply(t *rapid.T, h *Hist, label string) world.Reply {
 	case 1:
 		n := SecondsNear(t, label+"-ma", h.InPlay)
 		h.Note(n)
-		cc = append(cc, "max-age="+itoa(n))
+		cc = append(cc, "max-age="+PadZeros(t, label+"-mapad", itoa(n)))
 	case 2:
 		cc = append(cc, "max-age=0")
 	case 3:
@@ -40,7 +40,7 @@ func FreshnessReply(t *rapid.T, h *Hist, label string) world.Reply {
 	if Pct(t, label+"-swr", 20) {
 		n := SecondsNear(t, label+"-swrn", h.InPlay)
 		h.Note(n)
-		cc = append(cc, "stale-while-revalidate="+itoa(n))
+		cc = append(cc, "stale-while-revalidate="+PadZeros(t, label+"-swrpad", itoa(n)))
 	}
 	if Pct(t, label+"-imm", 8) {
 		cc = append(cc, "immutable")
@@ -55,10 +55,10 @@ func FreshnessReply(t *rapid.T, h *Hist, label string) world.Reply {
 		rp.Header = append(rp.Header, H("Date", "$T+0"))
 	case 1:
 		dateOff = -Seconds(t, label+"-dateskew")
-		rp.Header = append(rp.Header, H("Date", DateOff(dateOff)))
+		rp.Header = append(rp.Header, H("Date", DateOffFmt(t, label+"-f1", dateOff)))
 	case 2:
 		dateOff = Seconds(t, label+"-datefut")
-		rp.Header = append(rp.Header, H("Date", DateOff(dateOff)))
+		rp.Header = append(rp.Header, H("Date", DateOffFmt(t, label+"-f2", dateOff)))
 	case 3: // absent
 	case 4:
 		rp.Header = append(rp.Header, H("Date", Pick(t, label+"-dateinv", "garbage", "0", "Sat, 01 Jan 2000 00:00:00", "2000-01-01T00:00:00Z")))
@@ -69,11 +69,11 @@ func FreshnessReply(t *rapid.T, h *Hist, label string) world.Reply {
 	case 1:
 		n := SecondsNear(t, label+"-expn", h.InPlay)
 		h.Note(n)
-		rp.Header = append(rp.Header, H("Expires", DateOff(dateOff+n)))
+		rp.Header = append(rp.Header, H("Expires", DateOffFmt(t, label+"-f3", dateOff+n)))
 	case 2:
-		rp.Header = append(rp.Header, H("Expires", DateOff(dateOff)))
+		rp.Header = append(rp.Header, H("Expires", DateOffFmt(t, label+"-f4", dateOff)))
 	case 3:
-		rp.Header = append(rp.Header, H("Expires", DateOff(dateOff-Seconds(t, label+"-exppast")-1)))
+		rp.Header = append(rp.Header, H("Expires", DateOffFmt(t, label+"-f5", dateOff-Seconds(t, label+"-exppast")-1)))
 	case 4:
 		rp.Header = append(rp.Header, H("Expires", Pick(t, label+"-expinv", "0", "-1", "never", "Thu, 01 Jan 1970 00:00:00 UTC")))
 	}
@@ -83,11 +83,11 @@ func FreshnessReply(t *rapid.T, h *Hist, label string) world.Reply {
 	case 1:
 		n := Pick(t, label+"-lmage", int64(10), 15, 20, 100, 600, 3600, 36000, 86400, 864000)
 		h.Note(n / 10)
-		rp.Header = append(rp.Header, H("Last-Modified", DateOff(dateOff-n)))
+		rp.Header = append(rp.Header, H("Last-Modified", DateOffFmt(t, label+"-f6", dateOff-n)))
 	case 2:
-		rp.Header = append(rp.Header, H("Last-Modified", DateOff(dateOff)))
+		rp.Header = append(rp.Header, H("Last-Modified", DateOffFmt(t, label+"-f7", dateOff)))
 	case 3:
-		rp.Header = append(rp.Header, H("Last-Modified", DateOff(dateOff+Seconds(t, label+"-lmfut")+1)))
+		rp.Header = append(rp.Header, H("Last-Modified", DateOffFmt(t, label+"-f8", dateOff+Seconds(t, label+"-lmfut")+1)))
 	case 4:
 		rp.Header = append(rp.Header, H("Last-Modified", Pick(t, label+"-lminv", "garbage", "0")))
 	}
@@ -129,9 +129,9 @@ func RequestCC(t *rapid.T, h *Hist, label string) string {
 	case 1:
 		cc = append(cc, "max-stale")
 	case 2:
-		cc = append(cc, "max-stale="+itoa(SecondsNear(t, label+"-ms", h.InPlay)))
+		cc = append(cc, "max-stale="+PadZeros(t, label+"-mspad", itoa(SecondsNear(t, label+"-ms", h.InPlay))))
 	case 3:
-		cc = append(cc, "max-age="+itoa(SecondsNear(t, label+"-ma", h.InPlay)))
+		cc = append(cc, "max-age="+PadZeros(t, label+"-rmapad", itoa(SecondsNear(t, label+"-ma", h.InPlay))))
 	case 4:
 		cc = append(cc, "min-fresh="+itoa(SecondsNear(t, label+"-mf", h.InPlay)))
 	case 5:
